@@ -593,10 +593,15 @@ func (g *hostGen) fill(ty *H, allowNil bool) *H {
 		if allowNil && rapid.IntRange(0, 6).Draw(g.t, "nilif") == 0 {
 			h.Nil = true
 		} else {
-			// the dynamic value: usually of the witness type, sometimes another one
-			if rapid.IntRange(0, 5).Draw(g.t, "otherdyn") == 0 {
+			// the dynamic value: usually of the witness type, sometimes another one, sometimes
+			// the witness type with its struct fields declared in another order (an equal yae
+			// type, but another Go type with another field layout)
+			switch od := rapid.IntRange(0, 7).Draw(g.t, "otherdyn"); {
+			case od == 0:
 				h.Elem = g.fill(g.typ(1), allowNil)
-			} else {
+			case od <= 2 && hasMultiFieldStruct(ty.Elem):
+				h.Elem = g.fill(g.permuteStructs(ty.Elem), allowNil)
+			default:
 				h.Elem = g.fill(ty.Elem, allowNil)
 			}
 		}
@@ -638,6 +643,54 @@ func (g *hostGen) fill(ty *H, allowNil bool) *H {
 		}
 	}
 	return h
+}
+
+func hasMultiFieldStruct(ty *H) bool {
+	if ty == nil {
+		return false
+	}
+	if ty.K == "struct" && len(ty.Fields) >= 2 {
+		return true
+	}
+	if hasMultiFieldStruct(ty.Elem) {
+		return true
+	}
+	for _, it := range ty.Items {
+		if hasMultiFieldStruct(it) {
+			return true
+		}
+	}
+	return false
+}
+
+// permuteStructs: the same type description with every struct's fields in a drawn order.
+func (g *hostGen) permuteStructs(ty *H) *H {
+	if ty == nil {
+		return nil
+	}
+	n := *ty
+	n.Elem = g.permuteStructs(ty.Elem)
+	n.KeyT = ty.KeyT
+	n.Items = make([]*H, len(ty.Items))
+	for i, it := range ty.Items {
+		n.Items[i] = g.permuteStructs(it)
+	}
+	if ty.K == "struct" && len(ty.Fields) >= 2 {
+		perm := make([]int, len(ty.Fields))
+		for i := range perm {
+			perm[i] = i
+		}
+		for i := len(perm) - 1; i > 0; i-- {
+			j := rapid.IntRange(0, i).Draw(g.t, "fieldperm")
+			perm[i], perm[j] = perm[j], perm[i]
+		}
+		fs, its := make([]HF, len(perm)), make([]*H, len(perm))
+		for i, p := range perm {
+			fs[i], its[i] = ty.Fields[p], n.Items[p]
+		}
+		n.Fields, n.Items = fs, its
+	}
+	return &n
 }
 
 func clampNum(x float64, kind string) float64 {
